@@ -10,7 +10,12 @@ An op list (JSON-able):
   ["close", key, rdid|None]       CloseCallback (None = the writer's close)
   ["get", key, now, [cands]]      GetRequest; cands script uuid4
   ["purge", key]                  PurgeRequest
-  ["io", jid, fault] ["cb", jid]  the two halves of disk job number jid (submission order)
+  ["io", jid, fault]              disk job number jid (submission order): page-in = the real body; page-out = the real body up to its unlink
+  ["unlink", jid]                 page-out only: the rest of the body (shm.unlink), after which the job reports ok / failed
+  ["cb", jid]                     the real Manager callback of the job
+  ["drain"] ["alloc", key, hex, tries, 0] ["read", key, tries, 0]
+                                  macros, expanded while the history runs into the concrete ops above (complete every pending job;
+                                  a patient writer: add, drain and retry on wait, then write + close; a patient reader likewise)
   ["rseg", key] ["rfile", key]    what a client / the disk shows under the key's shmid
 After every op a FreeSpaceRequest goes through the same loop.
 Observation per op: [kind, ..., free_space_after, [[jobkind, key, size], ...newly submitted jobs]]
@@ -52,7 +57,7 @@ def patched():
         (dataset, "SharedMemory"): dataset.SharedMemory, (dataset, "time"): dataset.time, (dataset, "uuid"): dataset.uuid,
         (dataset, "get_capacity"): dataset.get_capacity,
         (disk, "SharedMemory"): disk.SharedMemory, (disk, "ThreadPoolExecutor"): disk.ThreadPoolExecutor,
-        (disk, "tempfile"): disk.tempfile, (disk, "multiprocessing"): disk.multiprocessing,
+        (disk, "multiprocessing"): disk.multiprocessing,
     }
     had_open = "open" in disk.__dict__
     dataset.SharedMemory = F.FakeSharedMemory
@@ -61,7 +66,6 @@ def patched():
     dataset.get_capacity = lambda: 2 ** 62
     disk.SharedMemory = F.FakeSharedMemory
     disk.ThreadPoolExecutor = F.ManualExecutor
-    disk.tempfile = types.SimpleNamespace(TemporaryDirectory=lambda **k: types.SimpleNamespace(name="/fake-pageout", cleanup=lambda: None))
     disk.multiprocessing = types.SimpleNamespace(resource_tracker=types.SimpleNamespace(unregister=lambda *a, **k: None))
     disk.open = F.fake_open
     prev = logging.root.manager.disable
@@ -120,6 +124,8 @@ class Driver:
         self.crash = None
         self.events = []              # harness-side ghost events (e.g. orphan page-out success) for signatures
         self.job_obj = {}             # jid -> id() of the Dataset object registered under the job's key at submission
+        self.last_now = 0
+        self.next_rd = 500000
         self.epilogue = None          # callable(driver) -> more ops | None, asked when the script runs dry
         self.wild_write = False
 
@@ -175,6 +181,9 @@ class Driver:
             if self.pc >= len(self.ops):
                 return api.ser(api.ShutdownCommand())
             i, op = self.pc, self.ops[self.pc]
+            if op[0] in ("drain", "alloc", "read"):
+                self.ops[i:i + 1] = self.expand(op)
+                continue
             self.pc += 1
             req = self.request_of(op)
             if req is not None:
@@ -184,14 +193,53 @@ class Driver:
             self.inflight = ("free", i, op)
             return api.ser(api.FreeSpaceRequest())
 
+    def pending_job_steps(self):
+        out = []
+        for j in self.board.jobs:
+            if j.phase == "io":
+                out += [["io", j.jid, False]] + ([["unlink", j.jid]] if j.kind == "out" else []) + [["cb", j.jid]]
+            elif j.phase == "unlink":
+                out += [["unlink", j.jid], ["cb", j.jid]]
+            elif j.phase == "cb":
+                out.append(["cb", j.jid])
+        return out
+
+    def expand(self, op):
+        k = op[0]
+        if k == "drain":
+            return self.pending_job_steps()
+        last = self.obs[-1] if self.obs else None
+        if k == "alloc":
+            _, key, hx, tries, stage = op
+            if stage == 0:
+                return [["add", key, len(hx) // 2, self.last_now + 1], ["alloc", key, hx, tries, 1]]
+            if last and last[0] == "add" and last[2] == "" and last[1] is not None:
+                return [["write", key, hx], ["close", key, None]]
+            if last and last[0] == "add" and last[2] == "wait" and tries > 0:
+                return [["drain"], ["alloc", key, hx, tries - 1, 0]]
+            return []
+        if k == "read":
+            _, key, tries, stage = op
+            if stage == 0:
+                self.next_rd += 1
+                return [["get", key, self.last_now + 1, [self.next_rd]], ["read", key, tries, 1]]
+            if last and last[0] == "get" and last[4] == "" and last[1] is not None:
+                return [["rseg", key], ["close", key, last[3]]]
+            if last and last[0] == "get" and last[4] == "wait" and tries > 0:
+                return [["drain"], ["read", key, tries - 1, 0]]
+            return []
+        raise ValueError(k)
+
     def request_of(self, op):
         api, k = self.api, op[0]
         if k == "add":
+            self.last_now = max(self.last_now, op[3])
             self.env.clock.now = op[3]
             return api.AllocateRequest(key=op[1], l=op[2], deser_fun="d")
         if k == "close":
             return api.CloseCallback(key=op[1], rdid="" if op[2] is None else "%08x" % op[2])
         if k == "get":
+            self.last_now = max(self.last_now, op[2])
             self.env.clock.now = op[2]
             self.env.uuids.script = list(op[3])
             return api.GetRequest(key=op[1])
@@ -246,11 +294,22 @@ class Driver:
             b = self.reg.segs.get(self.shmid(op[1]))
             return ["rseg", None if b is None else bytes(b).hex()]
         if k == "rfile":
-            b = self.reg.files.get(self.shmid(op[1]))
-            return ["rfile", None if b is None else bytes(b).hex()]
-        if k == "io":
-            done = self.board.run_io(op[1], fault=op[2])
-            return ["io", bool(done)]
+            try:
+                with open(f"{self.m.disk.root.name}/{self.shmid(op[1])}", "rb") as f:
+                    return ["rfile", f.read().hex()]
+            except FileNotFoundError:
+                return ["rfile", None]
+        if k in ("io", "unlink"):
+            jid = op[1]
+            j = self.board.jobs[jid] if 0 <= jid < len(self.board.jobs) else None
+            if j is not None and j.kind == "out" and j.phase == k:
+                key = self.key_for(j.shmid)
+                orphan = self.m.datasets.get(key) is not self.job_obj.get(jid) or self.job_obj.get(jid) is None
+                if orphan and j.shmid in self.reg.segs:
+                    # a page-out job whose Dataset object is gone meets a segment under its name: the key was allocated again
+                    self.events.append(("orphan-sees-segment", len(self.obs), key))
+            done = self.board.run_io(jid, fault=op[2]) if k == "io" else self.board.run_unlink(jid)
+            return [k, bool(done)]
         if k == "cb":
             jid = op[1]
             j = self.board.jobs[jid] if 0 <= jid < len(self.board.jobs) else None
@@ -269,7 +328,20 @@ class Driver:
             self.srv.start()
         except Exception as e:   # an exception left the serve loop: the store is dead
             self.crash = [type(e).__name__, repr(e)[:200], max(0, self.pc - 1)]
+        finally:
+            self.board.abort_all()
+            try:
+                self.m.disk.root.cleanup()
+            except Exception:
+                pass
         return self.obs, self.crash
+
+
+def readd_evidence(d):
+    """the history contains the open finding readd-during-pageout: a page-out job of a purged Dataset object met a segment under its
+    name (the key was allocated again), or -- in histories where clients create segments outside the protocol -- completed successfully"""
+    ev = {e[0] for e in d.events}
+    return "orphan-sees-segment" in ev or ("orphan-pageout-success" in ev and d.wild_write)
 
 
 def errkind(err):
@@ -325,6 +397,8 @@ def c_op(nm, op):
         return f"Purge {nm.n(op[1])}"
     if k == "io":
         return f"JobIo {cN(op[1])} {cbool(op[2])}"
+    if k == "unlink":
+        return f"JobUnlink {cN(op[1])}"
     if k == "cb":
         return f"JobCb {cN(op[1])}"
     if k == "rseg":
@@ -355,7 +429,7 @@ def c_resp(nm, ob):
         return f"RWrote {cbool(ob[1])}"
     if k in ("rseg", "rfile"):
         return f"RBytes {copt(ob[1], c_bytes)}"
-    if k in ("io", "cb"):
+    if k in ("io", "unlink", "cb"):
         return f"RJob {cbool(ob[1])}"
     raise ValueError(k)
 
@@ -423,13 +497,13 @@ def gen_history(rng, malformed=False, maxlen=40):
     readers = {}         # key -> list of rdids this population may hold
     next_rd = [1]
     njobs = [0]          # upper bound on jobs submitted so far (the generator cannot know; it guesses)
-    jobs_io, jobs_cb = [], []
+    jobs_io, jobs_ul, jobs_cb = [], [], []
     last_size = {}
     while len(ops) < g.maxlen:
         r = rng.random()
         k = rng.choice(g.keys)
         if malformed and r < 0.25:
-            kind = rng.choice(["close", "close", "write", "io", "cb", "purge", "get", "closew"])
+            kind = rng.choice(["close", "close", "write", "io", "unlink", "cb", "purge", "get", "closew"])
             if kind == "close":
                 ops.append(["close", k, rng.choice([0, 1, 2, 3, 99])])
             elif kind == "closew":
@@ -438,6 +512,8 @@ def gen_history(rng, malformed=False, maxlen=40):
                 ops.append(["write", k, payload(rng, rng.randrange(1, 6))])
             elif kind == "io":
                 ops.append(["io", rng.randrange(0, 6), rng.random() < 0.3])
+            elif kind == "unlink":
+                ops.append(["unlink", rng.randrange(0, 6)])
             elif kind == "cb":
                 ops.append(["cb", rng.randrange(0, 6)])
             elif kind == "purge":
@@ -485,13 +561,20 @@ def gen_history(rng, malformed=False, maxlen=40):
                 ops.append(["rseg", k])
         elif r < 0.80:
             ops.append(["purge", k])
-        elif r < 0.90:
+        elif r < 0.87:
             if jobs_io:
                 j = jobs_io.pop(rng.randrange(len(jobs_io)) if rng.random() < 0.5 else 0)
                 ops.append(["io", j, rng.random() < 0.08])
-                jobs_cb.append(j)
+                jobs_ul.append(j)
             else:
                 ops.append(["io", rng.randrange(0, max(1, njobs[0] + 1)), False])
+        elif r < 0.94:
+            if jobs_ul:
+                j = jobs_ul.pop(rng.randrange(len(jobs_ul)) if rng.random() < 0.5 else 0)
+                ops.append(["unlink", j])
+                jobs_cb.append(j)
+            else:
+                ops.append(["unlink", rng.randrange(0, max(1, njobs[0] + 1))])
         else:
             if jobs_cb:
                 j = jobs_cb.pop(rng.randrange(len(jobs_cb)) if rng.random() < 0.5 else 0)
@@ -500,9 +583,7 @@ def gen_history(rng, malformed=False, maxlen=40):
                 ops.append(["cb", rng.randrange(0, max(1, njobs[0] + 1))])
     # drain: complete every job that may exist, then probe everything observable
     if rng.random() < 0.7:
-        for j in range(0, min(njobs[0] + 2, 12)):
-            ops.append(["io", j, False])
-            ops.append(["cb", j])
+        ops.append(["drain"])
     for k in g.keys:
         ops.append(["rseg", k])
         ops.append(["rfile", k])
@@ -548,7 +629,7 @@ def pressure_history(rng):
     big = keys[-1]
     sizes[big] = rng.randrange(max(1, cap // 2), cap + 1)
     jobs_seen = 0
-    pend_io, pend_cb = [], []
+    pend_io, pend_ul, pend_cb = [], [], []
     for rnd in range(rng.choice([2, 3, 4, 6])):
         choice = rng.random()
         if choice < 0.5:
@@ -563,9 +644,13 @@ def pressure_history(rng):
             jobs_seen += 1
         for _ in range(rng.choice([0, 1, 2, 3, 4])):
             c = rng.random()
-            if c < 0.35 and pend_io:
+            if c < 0.3 and pend_io:
                 j = pend_io.pop(rng.randrange(len(pend_io)))
                 ops.append(["io", j, rng.random() < 0.05])
+                pend_ul.append(j)
+            elif c < 0.5 and pend_ul:
+                j = pend_ul.pop(rng.randrange(len(pend_ul)))
+                ops.append(["unlink", j])
                 pend_cb.append(j)
             elif c < 0.65 and pend_cb:
                 ops.append(["cb", pend_cb.pop(rng.randrange(len(pend_cb)))])
@@ -583,19 +668,85 @@ def pressure_history(rng):
             else:
                 ops.append(["write", big, payload(rng, sizes[big])])
                 ops.append(["close", big, None])
-    for j in range(min(jobs_seen + 1, 14)):
-        ops.append(["io", j, False])
-        ops.append(["cb", j])
+    ops.append(["drain"])
     for k in keys:
         ops.append(["get", k, tick(), [rd[0]]])
         rd[0] += 1
         ops.append(["rseg", k])
-    for j in range(jobs_seen, min(jobs_seen + 6, 20)):
-        ops.append(["io", j, False])
-        ops.append(["cb", j])
+    ops.append(["drain"])
     for k in keys:
         ops.append(["get", k, tick(), [rd[0]]])
         rd[0] += 1
         ops.append(["rseg", k])
         ops.append(["rfile", k])
+    return cap, ops
+
+
+def midpurge_history(rng):
+    """a purge (and sometimes a new allocation of the key) landing between the steps of a page-out job: fill the store with closed
+    datasets, over-allocate, run the first half of the jobs, purge, run the unlinks and callbacks, then allocate again"""
+    cap = rng.choice([4, 6, 8, 10, 12])
+    nk = rng.choice([1, 2, 3])
+    keys = [f"k{i}" for i in range(nk)]
+    t = [rng.choice([1, 100])]
+
+    def tick():
+        t[0] += rng.choice([1, 2, 3])
+        return t[0]
+    ops, sizes = [], {}
+    room = cap
+    for k in keys:
+        s = rng.randrange(1, max(2, room - (nk - len(sizes) - 1) + 1)) if room > 1 else 1
+        s = max(1, min(s, room))
+        sizes[k] = s
+        room = max(1, room - s)
+        ops += [["add", k, s, tick()], ["write", k, payload(rng, s)], ["close", k, None]]
+        if rng.random() < 0.3:
+            ops += [["get", k, tick(), [7]], ["close", k, 7]]
+    big = rng.randrange(max(1, cap // 2), cap + 1)
+    ops.append(["add", "new", big, tick()])
+    njobs = nk   # at most one page-out per key
+    order = list(range(njobs))
+    rng.shuffle(order)
+    stage1 = [j for j in order if rng.random() < 0.85]
+    for j in stage1:
+        ops.append(["io", j, False])
+    for k in keys:
+        if rng.random() < 0.6:
+            ops.append(["purge", k])
+            if rng.random() < 0.35:
+                ops += [["add", k, sizes[k], tick()]] + ([["write", k, payload(rng, sizes[k])]] if rng.random() < 0.7 else [])
+    for j in order:
+        if j not in stage1 and rng.random() < 0.5:
+            ops.append(["io", j, False])
+        ops.append(["unlink", j])
+        if rng.random() < 0.2:
+            ops.append(["purge", rng.choice(keys)])
+        ops.append(["cb", j])
+    ops.append(["drain"])
+    for _ in range(rng.choice([1, 2, 3])):
+        ops.append(["add", rng.choice(["new", "n2", "n3"]), rng.randrange(max(1, cap // 2), cap + 1), tick()])
+    ops.append(["drain"])
+    ops.append(["add", "n4", cap, tick()])
+    return cap, ops
+
+
+def rewrite_history(rng):
+    """one key written, sent to disk and back, purged, written again with other bytes (same or another size), sent to disk and
+    back again -- by patient clients (macros), in a store that holds about one dataset at a time"""
+    n = rng.choice([1, 2, 3, 4, 6])
+    n2 = n if rng.random() < 0.6 else rng.choice([1, 2, 3, 5, 7])
+    m = rng.choice([1, 2, 3, 4, 6])
+    cap = max(n, n2, m) + rng.randrange(0, max(1, min(n, n2, m)))
+    ops = [["alloc", "k1", payload(rng, n), 4, 0], ["alloc", "k2", payload(rng, m), 4, 0], ["read", "k1", 4, 0]]
+    if rng.random() < 0.3:
+        ops.append(["read", "k2", 4, 0])
+        ops.append(["read", "k1", 4, 0])
+    ops.append(["purge", "k1"])
+    if rng.random() < 0.2:
+        ops.append(["purge", "k2"])
+    ops.append(["alloc", "k1", payload(rng, n2), 4, 0])
+    for k in rng.choice([["k1", "k2", "k1"], ["k2", "k1"], ["k1", "k2", "k1", "k2", "k1"]]):
+        ops.append(["read", k, 4, 0])
+    ops += [["rfile", "k1"], ["rseg", "k1"]]
     return cap, ops
